@@ -151,6 +151,14 @@ class _N(ast.NodeTransformer):
         self.generic_visit(node)
         return self._loop_else(node)
 
+    def visit_Call(self, node: ast.Call):
+        self.generic_visit(node)
+        # N28: getattr(x, "name")  ->  x.name        (a literal identifier, no default)
+        if isinstance(node.func, ast.Name) and node.func.id == "getattr" and len(node.args) == 2 and not node.keywords \
+                and isinstance(node.args[1], ast.Constant) and isinstance(node.args[1].value, str) and node.args[1].value.isidentifier():
+            return ast.copy_location(ast.Attribute(value=node.args[0], attr=node.args[1].value, ctx=ast.Load()), node)
+        return node
+
     def visit_Compare(self, node: ast.Compare):
         self.generic_visit(node)
         # N27: x not in (None, E)  ->  x is not None and x != E ;   x in (None, E)  ->  x is None or x == E
